@@ -197,3 +197,44 @@ Proof.
   unfold bank_burn. destruct (amt <? 0); [discriminate|]. destruct (_ <? amt); [discriminate|].
   intros [= <-] H. apply bank_wf_set_supply, bank_wf_set_balance, H.
 Qed.
+
+(* ---------- reading balances through [moved] ---------- *)
+
+Lemma moved_other b b' from to d amt a d' :
+  moved b b' from to d amt -> a <> from -> a <> to -> balance b' a d' = balance b a d'.
+Proof.
+  intros (H & _) N1 N2. rewrite H.
+  destruct (Z.eqb_spec a from); [contradiction|]. destruct (Z.eqb_spec a to); [contradiction|].
+  cbn [andb]. lia.
+Qed.
+
+Lemma moved_other_denom b b' from to d amt a d' :
+  moved b b' from to d amt -> d' <> d -> balance b' a d' = balance b a d'.
+Proof.
+  intros (H & _) N. rewrite H. destruct (Z.eqb_spec d' d); [contradiction|].
+  rewrite !andb_false_r. lia.
+Qed.
+
+Lemma moved_sender b b' from to d amt d' :
+  moved b b' from to d amt -> from <> to ->
+  balance b' from d' = balance b from d' - (if d' =? d then amt else 0).
+Proof.
+  intros (H & _) N. rewrite H. rewrite Z.eqb_refl.
+  destruct (Z.eqb_spec from to); [contradiction|]. cbn [andb]. lia.
+Qed.
+
+Lemma moved_recipient b b' from to d amt d' :
+  moved b b' from to d amt -> from <> to ->
+  balance b' to d' = balance b to d' + (if d' =? d then amt else 0).
+Proof.
+  intros (H & _) N. rewrite H. rewrite Z.eqb_refl.
+  destruct (Z.eqb_spec to from); [congruence|]. cbn [andb]. lia.
+Qed.
+
+Lemma moved_total b b' from to d amt d' :
+  moved b b' from to d amt -> total_balance b' d' = total_balance b d'.
+Proof. intros (_ & _ & H). apply H. Qed.
+
+Lemma moved_supply b b' from to d amt d' :
+  moved b b' from to d amt -> supply_of b' d' = supply_of b d'.
+Proof. intros (_ & H & _). apply H. Qed.
